@@ -13,7 +13,9 @@ Open Scope list_scope.
 Theorem C18_telstate_keys :
   l0_cbid_key = "capture_block_id"%string /\ l0_stream_key = "stream_name"%string /\ l0_type_key = "stream_type"%string
   /\ ts_inherit_key = "inherit"%string /\ fl_type_key = "stream_type"%string /\ fl_src_key = "src_streams"%string
-  /\ fl_archived_key = "sdp_archived_streams"%string /\ ts_sep = "_"%string.
+  /\ fl_archived_key = "sdp_archived_streams"%string /\ ts_sep = "_"%string
+  /\ ds_chunk_info_key = "chunk_info"%string /\ fl_chunk_info_key = "chunk_info"%string
+  /\ ds_dumps_array = "correlator_data"%string.
 Proof. exact telstate_keys. Qed.
 Print Assumptions C18_telstate_keys.
 
